@@ -359,9 +359,12 @@ def run_check(prop, spec, tier, replay=None):
         mm, vv = storecheck.run(seed, n, stats)
         mm2, vv2 = storecheck.run_machines(seed, 1 if tier == "quick" else 10, stats)
         mm += mm2; vv += vv2
-    else:
+    if spec.get("custom") is None or spec.get("machines"):
+        mm, vv = (mm, vv) if spec.get("custom") else ([], [])
         nops = spec.get("nops", 14)
         cases = []
+        if spec.get("custom"):
+            n = spec["n_machines_quick"] if tier == "quick" else spec["n_machines_thorough"]
         for name, g, md in machines_for(spec["profile"], seed, n):
             opss = [spec["ops"](g, md, nops) if spec.get("ops") else g.gen_ops(md, nops) for _ in range(spec.get("nlists", 3))]
             for c in spec["cfgs"]:
@@ -371,7 +374,8 @@ def run_check(prop, spec, tier, replay=None):
             d = json.load(open(p))
             for c in d.get("cfgs", spec["cfgs"]):
                 cases.append((nm, d["md"], c, [[normalize_op(o) for o in ops] for ops in d["ops"]]))
-        mm, vv = run_cases(prop, spec, cases, stats, log)
+        mm2, vv2 = run_cases(prop, spec, cases, stats, log)
+        mm += mm2; vv += vv2
     mismatches += mm
     violations += vv
     # 3. verdict
